@@ -76,28 +76,28 @@ theorem slice_append_left {x rest : Bytes} {len : Nat} (hx : x.length = len) :
 
 /-- the `k`-th `w`-byte slice of an encoded table is the encoding of its `k`-th entry -/
 theorem slice_encodeTable (e : Enc) (w : Nat) (vs : List Nat) (k : Nat) (hk : k < vs.length) :
-    slice (Spec.encodeTable e w vs) (k * w) w = encodeInt e w vs[k] := by
+    slice (Spec.encodeArrTable e w vs) (k * w) w = encodeInt e w vs[k] := by
   induction vs generalizing k with
   | nil => simp at hk
   | cons v vs ih =>
     cases k with
-    | zero => simp only [Spec.encodeTable, Nat.zero_mul, List.getElem_cons_zero]
+    | zero => simp only [Spec.encodeArrTable, Nat.zero_mul, List.getElem_cons_zero]
               exact slice_append_left (by simp)
     | succ k =>
-      simp only [Spec.encodeTable, List.getElem_cons_succ]
+      simp only [Spec.encodeArrTable, List.getElem_cons_succ]
       rw [show (k + 1) * w = w + k * w by rw [Nat.add_mul]; omega]
       rw [slice_append_right (by simp)]
       exact ih k (by simpa using hk)
 
 theorem encodeTable_append (e : Enc) (w : Nat) (xs ys : List Nat) :
-    Spec.encodeTable e w (xs ++ ys) = Spec.encodeTable e w xs ++ Spec.encodeTable e w ys := by
+    Spec.encodeArrTable e w (xs ++ ys) = Spec.encodeArrTable e w xs ++ Spec.encodeArrTable e w ys := by
   induction xs with
-  | nil => simp [Spec.encodeTable]
-  | cons x xs ih => simp [Spec.encodeTable, ih]
+  | nil => simp [Spec.encodeArrTable]
+  | cons x xs ih => simp [Spec.encodeArrTable, ih]
 
 /-- the spec-level reader agrees: entry `k` of an encoded table is `vs[k]` truncated -/
 theorem tableEntry_encodeTable (e : Enc) (w : Nat) (vs : List Nat) (k : Nat) (hk : k < vs.length) :
-    Spec.tableEntry e w (Spec.encodeTable e w vs) k = some (vs[k] % 2 ^ (8 * w)) := by
+    Spec.tableEntry e w (Spec.encodeArrTable e w vs) k = some (vs[k] % 2 ^ (8 * w)) := by
   unfold Spec.tableEntry
   rw [if_pos, slice_encodeTable e w vs k hk, decode_encodeInt]
   rw [Spec.encodeTable_length, Nat.mul_comm]
@@ -342,15 +342,15 @@ theorem splitNulAux_record (x rest cur : Bytes) (hx : ∀ c ∈ x, c ≠ 0) (hne
 theorem eq_ofNat_of_toNat {n : Nat} (x : BitVec n) (v : Nat) (h : x.toNat = v) : x = BitVec.ofNat n v := by
   subst h; simp
 
-theorem field_some {e : Enc} {bs : Bytes} {off w v : Nat} (h : Spec.field e bs off w = some v) :
+theorem field_some {e : Enc} {bs : Bytes} {off w v : Nat} (h : Spec.tabField e bs off w = some v) :
     off + w ≤ bs.length ∧ v = decodeInt e (slice bs off w) := by
-  unfold Spec.field at h
+  unfold Spec.tabField at h
   split at h
   · exact ⟨by assumption, by injection h with h; exact h.symm⟩
   · cases h
 
 theorem rd16_spec {b : SecBuf} (hI : b.Inv) (e : Enc) (site : String) (off v : Nat)
-    (h : Spec.field e b.content off 2 = some v) :
+    (h : Spec.tabField e b.content off 2 = some v) :
     ∃ x, rd16 site b.getData.data off = .ok x ∧ (cv16 e x).toNat = v := by
   obtain ⟨h1, h2⟩ := field_some h
   refine ⟨BitVec.ofNat 16 (hostDecode (slice b.content off 2)), ?_, ?_⟩
@@ -358,7 +358,7 @@ theorem rd16_spec {b : SecBuf} (hI : b.Inv) (e : Enc) (site : String) (off v : N
   · rw [h2]; exact cv16_toNat e _ (slice_length_of_le h1)
 
 theorem rd32_spec {b : SecBuf} (hI : b.Inv) (e : Enc) (site : String) (off v : Nat)
-    (h : Spec.field e b.content off 4 = some v) :
+    (h : Spec.tabField e b.content off 4 = some v) :
     ∃ x, rd32 site b.getData.data off = .ok x ∧ (cv32 e x).toNat = v := by
   obtain ⟨h1, h2⟩ := field_some h
   refine ⟨BitVec.ofNat 32 (hostDecode (slice b.content off 4)), ?_, ?_⟩
@@ -366,11 +366,11 @@ theorem rd32_spec {b : SecBuf} (hI : b.Inv) (e : Enc) (site : String) (off v : N
   · rw [h2]; exact cv32_toNat e _ (slice_length_of_le h1)
 
 theorem strLookup_eq {s : SecBuf} (hS : s.Inv) (idx : BitVec 32) :
-    strLookup (some s) idx = Spec.strAt s.content idx.toNat := by
+    strLookup (some s) idx = Spec.tabStrAt s.content idx.toNat := by
   have hl := content_length hS
   obtain ⟨_, ⟨h1, h2⟩ | ⟨a, hd, h2, h3⟩⟩ := getData_content hS
-  · simp [strLookup, h1, h2, Spec.strAt]
-  · simp only [strLookup, hd, h3, Spec.strAt]
+  · simp [strLookup, h1, h2, Spec.tabStrAt]
+  · simp only [strLookup, hd, h3, Spec.tabStrAt]
     by_cases hi : s.size.toNat ≤ idx.toNat
     · simp only [hi, if_true]
       rw [List.drop_eq_nil_of_le (by omega)]
@@ -379,8 +379,8 @@ theorem strLookup_eq {s : SecBuf} (hS : s.Inv) (idx : BitVec 32) :
 
 theorem decodeVerneed_fields {e : Enc} {bs : Bytes} {off : Nat} {r : Spec.Verneed}
     (h : Spec.decodeVerneed e bs off = some r) :
-    Spec.field e bs off 2 = some r.version ∧ Spec.field e bs (off + 4) 4 = some r.file ∧
-    Spec.field e bs (off + 8) 4 = some r.aux ∧ Spec.field e bs (off + 12) 4 = some r.next := by
+    Spec.tabField e bs off 2 = some r.version ∧ Spec.tabField e bs (off + 4) 4 = some r.file ∧
+    Spec.tabField e bs (off + 8) 4 = some r.aux ∧ Spec.tabField e bs (off + 12) 4 = some r.next := by
   simp only [Spec.decodeVerneed, bind, Option.bind_eq_some_iff, pure, Option.some.injEq] at h
   obtain ⟨a1, h1, a2, h2, a3, h3, a4, h4, a5, h5, rfl⟩ := h
   exact ⟨h1, h3, h4, h5⟩
@@ -388,8 +388,8 @@ theorem decodeVerneed_fields {e : Enc} {bs : Bytes} {off : Nat} {r : Spec.Vernee
 
 theorem decodeVernaux_fields {e : Enc} {bs : Bytes} {off : Nat} {r : Spec.Vernaux}
     (h : Spec.decodeVernaux e bs off = some r) :
-    Spec.field e bs off 4 = some r.hash ∧ Spec.field e bs (off + 4) 2 = some r.flags ∧
-    Spec.field e bs (off + 6) 2 = some r.other ∧ Spec.field e bs (off + 8) 4 = some r.name := by
+    Spec.tabField e bs off 4 = some r.hash ∧ Spec.tabField e bs (off + 4) 2 = some r.flags ∧
+    Spec.tabField e bs (off + 6) 2 = some r.other ∧ Spec.tabField e bs (off + 8) 4 = some r.name := by
   simp only [Spec.decodeVernaux, bind, Option.bind_eq_some_iff, pure, Option.some.injEq] at h
   obtain ⟨a1, h1, a2, h2, a3, h3, a4, h4, a5, h5, rfl⟩ := h
   exact ⟨h1, h2, h3, h4⟩
@@ -458,15 +458,15 @@ theorem verneed_loop_spec {b : SecBuf} (hI : b.Inv) (e : Enc) (no : BitVec 32) (
 
 theorem decodeVerdef_fields {e : Enc} {bs : Bytes} {off : Nat} {r : Spec.Verdef}
     (h : Spec.decodeVerdef e bs off = some r) :
-    Spec.field e bs (off + 2) 2 = some r.flags ∧ Spec.field e bs (off + 4) 2 = some r.ndx ∧
-    Spec.field e bs (off + 8) 4 = some r.hash ∧ Spec.field e bs (off + 12) 4 = some r.aux ∧
-    Spec.field e bs (off + 16) 4 = some r.next := by
+    Spec.tabField e bs (off + 2) 2 = some r.flags ∧ Spec.tabField e bs (off + 4) 2 = some r.ndx ∧
+    Spec.tabField e bs (off + 8) 4 = some r.hash ∧ Spec.tabField e bs (off + 12) 4 = some r.aux ∧
+    Spec.tabField e bs (off + 16) 4 = some r.next := by
   simp only [Spec.decodeVerdef, bind, Option.bind_eq_some_iff, pure, Option.some.injEq] at h
   obtain ⟨a1, h1, a2, h2, a3, h3, a4, h4, a5, h5, a6, h6, a7, h7, rfl⟩ := h
   exact ⟨h2, h3, h5, h6, h7⟩
 
 theorem decodeVerdaux_fields {e : Enc} {bs : Bytes} {off : Nat} {r : Spec.Verdaux}
-    (h : Spec.decodeVerdaux e bs off = some r) : Spec.field e bs off 4 = some r.name := by
+    (h : Spec.decodeVerdaux e bs off = some r) : Spec.tabField e bs off 4 = some r.name := by
   simp only [Spec.decodeVerdaux, bind, Option.bind_eq_some_iff, pure, Option.some.injEq] at h
   obtain ⟨a1, h1, a2, h2, rfl⟩ := h
   exact h1
